@@ -23,7 +23,9 @@ MANIFEST = dict(
          "(never success / continue), no value, no undefined step, as soon as at least one extension occurs anywhere; `plain_is_rfc8259`. The forms that "
          "change a single token - raw control character in a string or name, superfluous leading zero, trailing bytes after the value (with and without "
          "ALLOW_TRAILING_CHARS: accepted with the end of the value reported) - are per-state theorems for every tokener state of that shape and every "
-         "enclosing stack (`strict_control_in_string`, `strict_leading_zero_rejected`, `strict_trailing_rejected`, `trailing_accepted`, ...). The "
+         "enclosing stack (`strict_control_in_string`, `strict_leading_zero_rejected`, `strict_trailing_rejected`, `trailing_accepted`, ...); trailing bytes are in addition "
+         "proved on whole documents (`trailing_bytes`: any RFC 8259 text followed by a non-space byte: STRICT fails with 'unexpected character', default and "
+         "STRICT|ALLOW_TRAILING_CHARS return the value and the end of the text). The "
          "differential run inserts all eight forms at every admissible position of every generated document in three modes and compares implementation, "
          "model and the specification's value of the base document.",
     note="Trusted: Lean kernel + propext/Classical.choice/Quot.sound; Spec/Rfc8259.lean + Spec/Rfc8259X.lean as the reading of 'valid document with an "
